@@ -10,12 +10,15 @@ CLAIM = dict(
           "(NDEBUG and asserts on): utils::isequal and utils::isclose (public entries and detail:: entries) return exactly the "
           "structural comparison — same dimension, same shape, all elements equal / all |a-b| < eps; empty optional = empty "
           "optional, empty <> present; eithers alternative by alternative (with the caller's eps); tuples component by component — "
-          "or the pairing is rejected at compile time; the elements compared are the LOGICAL ones (by multi-index through apply_at): "
+          "or the pairing is rejected at compile time; utils::apply_isequal / apply_isclose (the entry of the testing macros) agree "
+          "with them, two empty optionals included; integer elements of different width compare by value (a comparison in a "
+          "type where both values are representable is exact — proved; the code uses the wider type); the elements compared are the LOGICAL ones (by multi-index through apply_at): "
           "for two array objects (layout, shape, buffer) the answer depends only on the shapes and the logical element lists, "
           "whatever the two memory layouts (row-/column-major); both are reflexive, symmetric, return false on different length / "
-          "dimension / shape, never abort and never read outside an operand. (isclose reached this through three repairs found "
-          "here: run-time shape test instead of assert-only, eps forwarded by the one-sided either arms, scalar difference in the "
-          "common type; the last one is listed as a known finding until it is in the tree.) "
+          "dimension / shape, never abort and never read outside an operand. (Six repairs found here are in the tree: isclose's run-time shape "
+          "test, eps forwarding and common-type difference; isequal's length/shape test and common-type element comparison; "
+          "apply_*'s empty-optional arm.) REFUTED (known finding): an unsigned and a signed integer operand are compared in the signed "
+          "common type, so uint8 200 equals int8 -56. "
           "Tied to the C++ by running both functions in three builds (NDEBUG, asserts+ASan+UBSan, NDEBUG+ASan) on all ordered pairs "
           "of shapes dim 1..3 extents 1..3, perturbations at every position, index arrays of four container kinds incl. "
           "compile-time constants, dynamic / fixed nested std::array / view operands in row-major AND column-major layout (every "
@@ -36,17 +39,22 @@ THEOREM_STATUS = {
                "C18_isequal_symmetric", "C18_isequal_different_shape_is_false", "C18_isequal_different_length_is_false",
                "C18_isequal_maybe_either_tuple", "C18_isclose_is_structural_closeness", "C18_isclose_never_aborts_or_reads_outside",
                "C18_isclose_reflexive_symmetric", "C18_isclose_different_shape_is_false", "C18_isclose_same_shape",
-               "C18_reference_symmetric", "C18_layout_independent"],
+               "C18_reference_symmetric", "C18_layout_independent", "C18_integer_comparison_exact_when_representable",
+               "C18_apply_maybe_arm"],
     "partial": [],
-    "refuted": ["C18_isclose_unsigned_refuted"]}
-ASSUMPTIONS = ["operands are well formed: extents >= 1, buffer length = product of extents, index arrays non-empty",
+    "refuted": ["C18_isequal_mixed_signedness_refuted"]}
+ASSUMPTIONS = ["integer elements are mathematical integers in the model (= a comparison in a type that holds both operands, theorem "
+               "C18_integer_comparison_exact_when_representable); meta::common_type_t's signed result for mixed signedness is the "
+               "listed finding isequal-mixed-signedness-common-type",
+               "utils::apply_isequal / apply_isclose are corresponded on the forms nn aa mm ma am tt tm against the same reference; "
+               "only their maybe/maybe arm is modelled (apply_mm)",
+"operands are well formed: extents >= 1, buffer length = product of extents, index arrays non-empty",
                "either alternatives are scalars / ndarray-kind integer containers / ndarrays, possibly optional (nested eithers and "
                "tuples inside an either are outside the domain; the header marks them TODO / unsupported)",
                "pair domain: no either anywhere, or no tuple-of-integers container anywhere (detail::same_concept never matches a "
                "tuple of integers against an either alternative)",
                "isclose values and eps are integers on a common scale (wire scale 4: exact binary fractions); NaN / inf handling "
-               "(off by default) is not modelled; integer element types are modelled as mathematical integers (the unsigned "
-               "wrap of the scalar difference before its fix is the listed finding isclose-unsigned-difference-wraps)",
+               "(off by default) is not modelled",
                "a general tuple against a fixed-size integer container is not modelled (never generated)"]
 
 _here = os.path.dirname(os.path.abspath(__file__))
@@ -73,6 +81,15 @@ def A(shape, data=None, scale=1):
     return "A:%s:%s" % (",".join(map(str, shape)), ",".join(map(str, data)))
 
 FIX = {(2, 3), (3, 2), (2, 2), (6,)}
+# tag -> (bits, signed, (min, max))
+INT_TYPES = {"i8": (8, True, (-128, 127)), "u8": (8, False, (0, 255)), "i16": (16, True, (-2 ** 15, 2 ** 15 - 1)),
+             "u16": (16, False, (0, 2 ** 16 - 1)), "i32": (32, True, (-2 ** 31, 2 ** 31 - 1)), "i64": (64, True, (-2 ** 63, 2 ** 63 - 1))}
+def _wrap(v, bits, signed):
+    m = v % (1 << bits)
+    return m - (1 << bits) if signed and m >= (1 << (bits - 1)) else m
+def _meta_common(ta, tb):        # meta::common_type_t: the wider (the right one on a tie), signed when either is signed
+    (ba, sa, _), (bb, sb, _) = INT_TYPES[ta], INT_TYPES[tb]
+    return (ba if ba > bb else bb, sa or sb)
 IDX_KINDS = ["vec", "vecu", "arr", "tup", "ct"]
 CT = {(2, 3), (3, 2), (2, 3, 4), (6,), (4, 3), (2, 9, 4)}
 
@@ -162,6 +179,37 @@ def gen_cases(rng, tier):
                         d4 = [4 * v for v in dt]
                         add("idx-vs-array", "cl_ia S:%s %s %s I:2" % (k, L(x), A(shp, d4)))
                         add("idx-vs-array", "cl_ai S:%s %s %s I:2" % (k, A(shp, d4), L(x)))
+    # ---- integer element types of different width / signedness: values that differ by a multiple of 2^8, 2^16, 2^32
+    for ta in INT_TYPES:
+        for tb in INT_TYPES:
+            (la, ha), (lb, hb) = INT_TYPES[ta][2], INT_TYPES[tb][2]
+            cands = set()
+            for x in (1, 5, 100, -3, 200, 40000, -1, 0, 127, 255):
+                if not (la <= x <= ha): continue
+                for y in (x, x + 256, x - 256, x + 65536, x - 65536, x + 2 ** 32, x - 2 ** 32, x + 1):
+                    if lb <= y <= hb: cands.add((x, y))
+            for x, y in sorted(cands):
+                for form in ("vec", "nd", "sc"):
+                    xs, ys = ([x, 2], [y, 2]) if form != "sc" else ([x], [y])
+                    add("int-widths", "eq_wi S:%s S:%s S:%s %s %s" % (ta, tb, form, L(xs), L(ys)))
+                if abs(x) < 2 ** 20 and abs(y) < 2 ** 20 and rng.random() < 0.3:
+                    add("int-widths", "cl_wi S:%s S:%s S:nd %s %s I:2" % (ta, tb, L([4 * x, 8]), L([4 * y, 8])) if (la <= 4 * x <= ha and lb <= 4 * y <= hb) else
+                        "cl_wi S:%s S:%s S:sc %s %s I:2" % (ta, tb, L([x]), L([y])))
+    # ---- the entry the testing macros use: utils::apply_isequal / apply_isclose (optionals incl. empty/empty, tuples, arrays)
+    apool = [A((2, 3), scale=4), A((3, 2), scale=4), A((2, 3), [0, 4, 8, 12, 16, 21]), A((1,), [8]), A((2,), [8, 8])]
+    amp = ["N"] + apool
+    for x in amp:
+        for y in amp:
+            add("apply", "aeq_mm %s %s" % (x, y)); add("apply", "acl_mm %s %s I:1" % (x, y))
+            if y != "N":
+                add("apply", "aeq_ma %s %s" % (x, y)); add("apply", "aeq_am %s %s" % (y, x)); add("apply", "acl_ma %s %s I:1" % (x, y))
+            if x != "N" and y != "N":
+                add("apply", "aeq_aa S:dyn S:%s %s %s" % (rng.choice(["dyn", "ref", "col"]), x, y))
+                add("apply", "acl_aa S:dyn S:%s %s %s I:1" % (rng.choice(["dyn", "ref", "col"]), x, y))
+                add("apply", "aeq_tt %s %s %s %s" % (x, y, rng.choice([x, y]), y))
+            for i1, i2 in ((8, 8), (8, 9)):
+                add("apply", "aeq_tm %s I:%d %s I:%d" % (x, i1, y, i2)); add("apply", "acl_tm %s I:%d %s I:%d I:1" % (x, i1, y, i2))
+    for a_, b_ in ((3, 3), (3, 4), (-1, -1)): add("apply", "aeq_nn I:%d I:%d" % (a_, b_))
     # ---- scalars
     for a in (-3, 0, 4, 5, 8):
         for b in (-3, 0, 4, 6, 8):
@@ -237,12 +285,15 @@ def distribution(streams):
 
 
 def classify(line, impl, spec, model):
-    op = line.split(" ")[0]
-    if op == "cl_ii" and spec == "ok 1" and impl == "ok 0":
-        t = line.split(" ")
-        ka, kb = t[1][2:], t[2][2:]
-        x = [int(v) for v in t[3][2:].split(",")]; y = [int(v) for v in t[4][2:].split(",")]
-        # an unsigned side (std::array<size_t>): t - u is computed in size_t and wraps whenever t < u
-        # (zero hits once the fix "isclose on integer scalars subtracts in the common type" is in the tree)
-        if "arr" in (ka, kb) and len(x) == len(y) and any(a < b for a, b in zip(x, y)): return "isclose-unsigned-difference-wraps"
+    """the only listed class: mixed signedness through meta::common_type_t.  (Repaired and therefore violations if they
+    return: narrowing of integer elements of different width, apply_* dereferencing two empty optionals, isclose's shape
+    test / eps forwarding / unsigned difference.)"""
+    t = line.split(" "); op = t[0]
+    if op == "eq_wi" and spec == "ok 0" and impl == "ok 1":
+        ta, tb = t[1][2:], t[2][2:]
+        x = [int(v) for v in t[4][2:].split(",")]; y = [int(v) for v in t[5][2:].split(",")]
+        ty = _meta_common(ta, tb)
+        # the common type is signed and no wider than the unsigned operand (u8 200 vs i8 -56; u16 65535 vs i8 -1)
+        if INT_TYPES[ta][1] != INT_TYPES[tb][1] and len(x) == len(y) and all(_wrap(a, *ty) == _wrap(b, *ty) for a, b in zip(x, y)):
+            return "isequal-mixed-signedness-common-type"
     return None
